@@ -8,7 +8,7 @@
    Part 4  PipelineClient LTS: pipelineConnClient.writer / reader / worker (client.go) on one connection at a time.
 
    Granularity.  The wire is a FIFO of symbols.  One symbol is a response head (status line + headers, parsed atomically), one unit
-   of body data, or the terminator of a chunked body.  A unit of body data may *look like* a response head ([SBody (Some h)]): when
+   of body data, the size line of a chunk ([SChunk n]: n units of data follow), or the terminator of a chunked body.  A unit of body data may *look like* a response head ([SBody (Some h)]): when
    the client reads it where it expects a head it parses as one (this is how a crafted body poisons a reused connection).  Every
    symbol carries a ghost tag: the id of the request whose response it belongs to.  The client never looks at tags.
 
@@ -28,27 +28,25 @@ Open Scope list_scope.
 Inductive kind := KGet | KHead.
 Inductive framing := FLen (n : nat) | FChunked | FIdent.   (* Content-Length: n | Transfer-Encoding: chunked | neither: until close *)
 Record head := mkHead { h_fr : framing; h_close : bool; h_nobody : bool }.   (* h_nobody: 1xx / 204 / 304 (mustSkipContentLength) *)
-Inductive sym := SHead (h : head) | SBody (fake : option head) | STerm.
+Inductive sym := SHead (h : head) | SChunk (n : nat) | SBody (fake : option head) | STerm.
 Definition tsym : Type := nat * sym.
 Record resp := mkResp { r_head : head; r_body : list (option head) }.
 Record req := mkReq { q_id : nat; q_kind : kind }.
 
 Definition is_head (k : kind) : bool := match k with KHead => true | KGet => false end.
 Definition no_wire_body (k : kind) (h : head) : bool := is_head k || h_nobody h.
+(* a chunked body: one chunk holding all the units (a caller can stop reading in the middle of it), then the last-chunk line *)
+Definition chunk_form (b : list (option head)) : list sym :=
+  match b with [] => [STerm] | _ :: _ => SChunk (length b) :: map SBody b ++ [STerm] end.
 Definition body_syms (r : resp) : list sym :=
-  map SBody (r_body r) ++ match h_fr (r_head r) with FChunked => [STerm] | _ => [] end.
+  match h_fr (r_head r) with FChunked => chunk_form (r_body r) | _ => map SBody (r_body r) end.
 Definition wire (k : kind) (r : resp) : list sym :=
   SHead (r_head r) :: (if no_wire_body k (r_head r) then [] else body_syms r).
 Definition tag (id : nat) (l : list sym) : list tsym := map (pair id) l.
 Definition twire (id : nat) (k : kind) (r : resp) : list tsym := tag id (wire k r).
-(* what a server can put on the wire: a Content-Length body has exactly the announced length; the data of a chunked body sits behind
-   chunk-size lines, so no unit of it can be taken for a response head *)
+(* what a server can put on the wire: a Content-Length body has exactly the announced length *)
 Definition wf_resp (r : resp) : bool :=
-  match h_fr (r_head r) with
-  | FLen n => Nat.eqb (length (r_body r)) n
-  | FChunked => forallb (fun u => match u with None => true | Some _ => false end) (r_body r)
-  | FIdent => true
-  end.
+  match h_fr (r_head r) with FLen n => Nat.eqb (length (r_body r)) n | _ => true end.
 
 (* ResponseHeader.ConnectionClose() after parsing: "Connection: close", or no length information at all (header.go: contentLength == -2
    && !mustSkipContentLength => connectionClose = true) *)
@@ -97,11 +95,12 @@ Inductive phase :=
 | PAcq                                  (* connection acquired, request not written yet *)
 | PHead                                 (* request written, waiting for the response head (Header.Read) *)
 | PBodyLen (left : nat)                 (* readBody / appendBodyFixedSize: [left] more units *)
-| PBodyChunked (cnt : nat)              (* readBodyChunked: [cnt] units read so far *)
+| PChunkSize (cnt : nat)                (* readBodyChunked at a chunk-size line: [cnt] units accepted so far *)
+| PChunkData (cnt : nat) (left : nat)   (* readBodyChunked inside a chunk: [left] more units of it *)
 | PBodyIdent (cnt : nat)                (* readBodyIdentity: until EOF *)
 | PHold                                 (* RoundTrip returned; body in memory behind bodyStream; release deferred to the close callback *)
 | PStreamLen (left : nat) (eof : bool)  (* requestStream with Content-Length; eof = eofReader.eof *)
-| PStreamChunked (eof : bool)           (* requestStream, chunked *)
+| PStreamChunked (left : nat) (eof : bool)   (* requestStream, chunked: left = chunkLeft *)
 | PStreamIdent (eof : bool).            (* requestStream, until close *)
 
 Inductive rd_res :=
@@ -119,7 +118,7 @@ Definition after_head (max : nat) (skip stream : bool) (h : head) : rd_res :=
        | FLen n =>
            if too_large max n then (if stream then RMore (PStreamLen n false) else RFail OTooLarge)
            else match n with 0 => RDone true | S _ => RMore (PBodyLen n) end
-       | FChunked => if stream then RMore (PStreamChunked false) else RMore (PBodyChunked 0)
+       | FChunked => if stream then RMore (PStreamChunked 0 false) else RMore (PChunkSize 0)
        | FIdent => if stream then RMore (PStreamIdent false) else RMore (PBodyIdent 0)
        end.
 
@@ -137,11 +136,19 @@ Definition rd_sym (max : nat) (skip stream : bool) (p : phase) (s : sym) : rd_re
       | 1 => RDone true
       | S l => RMore (PBodyLen l)                        (* any bytes are body bytes *)
       end
-  | PBodyChunked cnt =>
+  | PChunkSize cnt =>
       match s with
-      | SBody _ => if too_large max (S cnt) then RFail OTooLarge else RMore (PBodyChunked (S cnt))
+      | SChunk n =>                                      (* maxBodySize > 0 && len(dst)+chunkSize > maxBodySize *)
+          if too_large max (cnt + n) then RFail OTooLarge
+          else match n with 0 => RFail OErr | S _ => RMore (PChunkData (cnt + n) n) end   (* size 0 is STerm, never SChunk 0 *)
       | STerm => RDone true
-      | SHead _ => RFail OErr                            (* not a chunk size line *)
+      | _ => RFail OErr                                  (* not a chunk-size line *)
+      end
+  | PChunkData cnt lft =>
+      match lft with
+      | 0 => RFail OErr
+      | 1 => RMore (PChunkSize cnt)                      (* appendBodyFixedSize(chunkSize + CRLF): any bytes are chunk data *)
+      | S l => RMore (PChunkData cnt l)
       end
   | PBodyIdent cnt => if too_large max (S cnt) then RFail OTooLarge else RMore (PBodyIdent (S cnt))
   | _ => RFail OErr
@@ -156,24 +163,25 @@ Definition stream_sym (p : phase) (s : sym) : option phase :=
       | 1 => Some (PStreamLen 0 true)                    (* totalBytesRead == ContentLength: io.EOF with the data *)
       | S l => Some (PStreamLen l false)
       end
-  | PStreamChunked false =>
+  | PStreamChunked 0 false =>
       match s with
-      | SBody _ => Some (PStreamChunked false)
-      | STerm => Some (PStreamChunked true)              (* chunkSize == 0: trailer, io.EOF *)
-      | SHead _ => None                                  (* broken chunk: the Read fails, nothing changes *)
+      | SChunk (S n) => Some (PStreamChunked (S n) false)   (* parseChunkSize: chunkLeft = size *)
+      | STerm => Some (PStreamChunked 0 true)               (* chunkSize == 0: trailer, io.EOF *)
+      | _ => None                                           (* broken chunk: the Read fails *)
       end
+  | PStreamChunked (S l) false => Some (PStreamChunked l false)   (* min(chunkLeft, len(p)) bytes of chunk data, whatever they are *)
   | PStreamIdent false => Some (PStreamIdent false)
   | _ => None
   end.
 
 (* The peer closes while the caller reads the stream.  requestStream.Read hands the bufio.Reader's io.EOF through unchanged when it
-   comes between units (Content-Length: from rs.reader.Read; chunked: from readHexInt at a chunk-size line), so eofReader records
-   EOF although the body is incomplete: the caller sees a short body ending in a clean io.EOF, and the close callback treats the
-   stream as fully read. *)
+   comes between units of a Content-Length body (from rs.reader.Read) or at a chunk-size line (from readHexInt), so eofReader
+   records EOF although the body is incomplete: the caller sees a short body ending in a clean io.EOF, and the close callback
+   treats the stream as fully read.  Inside a chunk EOF becomes io.ErrUnexpectedEOF: the Read fails, nothing is recorded. *)
 Definition stream_eof (p : phase) : option phase :=
   match p with
   | PStreamLen n false => Some (PStreamLen n true)
-  | PStreamChunked false => Some (PStreamChunked true)
+  | PStreamChunked 0 false => Some (PStreamChunked 0 true)
   | PStreamIdent false => Some (PStreamIdent true)
   | _ => None
   end.
@@ -181,11 +189,11 @@ Definition stream_eof (p : phase) : option phase :=
 (* the close callback's [unread] *)
 Definition stream_unread (p : phase) : bool :=
   match p with
-  | PStreamLen _ e | PStreamChunked e | PStreamIdent e => negb e
+  | PStreamLen _ e | PStreamChunked _ e | PStreamIdent e => negb e
   | _ => false
   end.
 Definition is_stream_phase (p : phase) : bool :=
-  match p with PHold | PStreamLen _ _ | PStreamChunked _ | PStreamIdent _ => true | _ => false end.
+  match p with PHold | PStreamLen _ _ | PStreamChunked _ _ | PStreamIdent _ => true | _ => false end.
 
 (* ---- Part 3: HostClient ------------------------------------------------------------------------------------------------- *)
 Record opts := mkOpts {
@@ -321,7 +329,7 @@ Definition step (s : st) (l : label) : option st :=
               let k1 := set_inb k rest in
               let x1 := add_got (match p with PHead => set_head x sy | _ => x end) (tg, sy) in
               match p with
-              | PHead | PBodyLen _ | PBodyChunked _ | PBodyIdent _ =>
+              | PHead | PBodyLen _ | PChunkSize _ | PChunkData _ _ | PBodyIdent _ =>
                   match rd_sym (s_max s) (eff_skip (x_opts x)) (o_stream (x_opts x)) p sy with
                   | RMore p1 => Some (set_thr s t (TRun x1 p1 k1))
                   | RDone body => Some (finish s t x1 k1 body)
